@@ -16,6 +16,7 @@ char String::upperCaseMap[0x101] = "\x00\x01\x02\x03\x04\x05\x06\x07\x08\x09\x0a
 
 int String::printf(const char* format, ...)
 {
+  String old(*this); // an argument may point into this string's text: keep it alive and unchanged while formatting
   detach(0, 200);
 
   int result;
